@@ -59,6 +59,18 @@ func checkC10(c *Ctx) {
 			}
 		}
 		c.checkPins(f, "C10.d", methodPins)
+		// (f) `a = b` is an application of frt.OpEqual; it stays one in the Go text: the emitter of applications has
+		// no case for particular callees (a "fast path" that prints Go's == for some operand types makes = panic on
+		// uncomparable dynamic values and compare interfaces by identity-like rules)
+		r.Rule("C10.f", "an application of frt.OpEqual / frt.OpNotEqual is emitted as that call: the application emitters (fcToGo, fcFullApplyGo, fcPartialApplyGo) have their documented templates, with no case for particular callees", 3)
+		var appPins []pin
+		for _, p := range c03Pins {
+			switch p.fn {
+			case "fcToGo", "fcFullApplyGo", "fcPartialApplyGo":
+				appPins = append(appPins, p)
+			}
+		}
+		c.checkPins(f, "C10.f", appPins)
 		// the emitter writes the text "func (" only in those two method emitters
 		var others []string
 		for _, fn := range f.Prog.Funcs {
